@@ -7,7 +7,7 @@ From Coq Require Import List Arith ZArith Bool.
 Import ListNotations.
 From Acts.Gen Require Import GenState.
 From Acts.Model Require Import Engine.
-From Acts.Proofs Require Import EngineLemmas.
+From Acts.Proofs Require Import EngineLemmas LogInv C02Ops FinalProofs.
 
 (* a needs-branch starts exactly when a needed sibling has finished *)
 Theorem C04_needs_branch_release :
@@ -38,7 +38,25 @@ Theorem C04_branch_init :
           end) \/ length (tasks e) <= i.
 Proof. exact branch_init_state. Qed.
 
+(* order of a sequence, in every run (any node table, operations, schedule): a task created through the `next` link of
+   its predecessor -- the next step of a sequence, the next act of a step -- is created when the predecessor is in a
+   terminal state (`cur c_none l t` is the state the writes of the trace prefix l leave task t in), and unless that
+   state is an error, which a catch may still take, the predecessor stays in it for the rest of the run *)
+Theorem C04_successor_starts_after_predecessor_is_terminal :
+  forall ns c0 ops l1 l2 t nid p at_,
+    trace (run ns c0 ops) = l1 ++ ENew t nid (Some p) at_ VNext :: l2 ->
+    is_completed (cur c_none l1 p) = true /\
+    (cur c_none l1 p <> SError -> st (run ns c0 ops) p = cur c_none l1 p).
+Proof. exact next_link_after_terminal. Qed.
+(* non-vacuity: the second step of a sequence is created through the next link after the first one completed *)
+Example C04_example_sequence :
+  let ns := [ Build_node 0 KWorkflow 0 [(ONormal, 1)] None None false [] dspec [] [] [] [] [] [] false;
+              Build_node 1 KStep 1 [] (Some 2) None false [] dspec [] [] [] [] [] [] false;
+              Build_node 2 KStep 1 [] None None false [] dspec [] [] [] [] [] [] false ] in
+  existsb (fun x => match x with ENew _ 2 (Some 1) _ VNext => true | _ => false end) (trace (run ns 1000 [ODrain])) = true.
+Proof. vm_compute. reflexivity. Qed.
 Print Assumptions C04_needs_branch_release.
 Print Assumptions C04_else_branch_release.
 Print Assumptions C04_others_not_held.
 Print Assumptions C04_branch_init.
+Print Assumptions C04_successor_starts_after_predecessor_is_terminal.
